@@ -300,7 +300,14 @@ def check(ctx) -> None:
     # reaction_cnt: len(rows) before any stage
     if "reaction_cnt" in key_site:
         g, n, v = key_site["reaction_cnt"]
-        ok = g is f and isinstance(v, ast.Call) and isinstance(v.func, ast.Name) and v.func.id == "len" and v.args and isinstance(v.args[0], ast.Name) and v.args[0].id == pl.rows_param and n.lineno < first_stage_line
+        is_len = isinstance(v, ast.Call) and isinstance(v.func, ast.Name) and v.func.id == "len" and v.args and isinstance(v.args[0], ast.Name) and v.args[0].id == pl.rows_param
+        # the same count spelled as an unfiltered sum of ones over the rows
+        is_sum = (
+            isinstance(v, ast.Call) and isinstance(v.func, ast.Name) and v.func.id == "sum" and len(v.args) == 1 and isinstance(v.args[0], (ast.GeneratorExp, ast.ListComp))
+            and isinstance(v.args[0].elt, ast.Constant) and v.args[0].elt.value == 1 and len(v.args[0].generators) == 1 and not v.args[0].generators[0].ifs
+            and isinstance(v.args[0].generators[0].iter, ast.Name) and v.args[0].generators[0].iter.id == pl.rows_param
+        )
+        ok = g is f and (is_len or is_sum) and n.lineno < first_stage_line
         ctx.instance("C18-Z3", "reaction_cnt = len(rows) before the first stage", g.loc(n), ok=ok)
         if not ok:
             ctx.finding("C18-Z3", "stats:reaction_cnt:position", g.loc(n), "reaction_cnt is not len(<input rows>) taken before the first stage (rows may already be filtered)")
